@@ -254,7 +254,11 @@ def L2(tier, scheds=('fwd', 'bwd')):
                 lv = [i for i in range(len(par)) if is_leaf(par, i)]
                 # full attribute product only with the default calendar and the first two starts;
                 # calendars x starts with a reduced menu
-                if si < 2:
+                if tier == 'thorough':
+                    # the whole product: every attribute combination x every calendar x every start x every clock
+                    combos = list(itertools.product(range(len(menu)), repeat=len(lv)))
+                    cals = CAL_MENU
+                elif si < 2:
                     combos = list(itertools.product(range(len(menu)), repeat=len(lv)))
                     cals = ['none']
                 else:
@@ -272,7 +276,9 @@ def L2(tier, scheds=('fwd', 'bwd')):
                     for cal in cals:
                         for dflt in (0, 4):
                             for bal in (True, False):
-                                for clock in clocks:
+                                # a running project (clock after the project start) with a start fixed later than the clock
+                                more = [S + timedelta(hours=12)] if sched == 'fwd' and any('start' in attrs[i] for i in lv) else []
+                                for clock in clocks + more:
                                     yield Scenario(sched, bal, S, mk_tasks(par, attrs), list(links),
                                                    cals={'A': cal}, dflt=dflt, clock=clock, layer='L2')
 
@@ -530,9 +536,12 @@ def L6(tier, include_cycles=False):
     for sched in ('fwd', 'bwd'):
         A = S if sched == 'fwd' else S + 21 * DAY
         ed = dict(E_DATED) if sched == 'fwd' else {'start': A - 6 * DAY, 'end': A - 5 * DAY, 'estimate': 4}
-        for eid in (50, 1):  # 1: shares an id with a member of X
+        for eid0 in (50, 1, 'last'):  # 1 / last: shares an id with the first / the last member of X (two projects numbering from 1)
             for par in ((None,), (None, None), (None, 0), (None, 0, 0), (None, 0, None)):
                 n = len(par)
+                if eid0 == 'last' and n == 1:
+                    continue
+                eid = n if eid0 == 'last' else eid0
                 lv = [i for i in range(n) if is_leaf(par, i)]
                 attrs = {i: {'estimate': 4, 'resource': 'A'} for i in lv}
                 choices = [('x', i) for i in range(n)]
@@ -559,6 +568,14 @@ def L6(tier, include_cycles=False):
                             sc = Scenario(sched, bal, A, mk_tasks(par, attrs), list(il), ext=[(eid, dict(ed))],
                                           ext_links=el, clock=clock, layer='L6c' if cyc else 'L6')
                             yield sc
+
+
+def L1i(tier, scheds=('fwd', 'bwd')):
+    """The structures of L1 (n <= 3) planned by a scheduler that was given no date: ForwardScheduler() / BackwardScheduler() start /
+    end the project at the current time. The clock stands at the scenario's anchor when the scheduler is built and when calc runs,
+    so every oracle reads the input as 'project anchored at the clock value'."""
+    for sc in L1(tier, scheds, nmax=3, anchors=[MON, MON + H9]):
+        yield Scenario(sc.sched, sc.balance, sc.anchor, sc.tasks, sc.links, cals=sc.cals, dflt=sc.dflt, clock=sc.anchor, layer='L1i')
 
 
 L8_SHAPES = [
